@@ -10,6 +10,26 @@ def S(name, variant, n, *args):
 MIX = ['mixed1', 'mixed2', 'mixed3']
 ALL = '012345678'   # nop, throw A/B/C, call K0..K3 (callees containing their own try/catch), call a plain thrower
 
+# A filter entry whose Cmp function RAISES AND HANDLES an exception of its own while exception_catch scans the
+# filter overwrites the record on the current tree (genuine defect, proposed/C07-catch-scan-overwrites-record.md):
+# these instances report it with labels ending in '/filter-entry-cmp-handles-an-exception-of-its-own'.
+# Set to True once proposed/C07-catch-scan-overwrites-record.patch (or an equivalent repair) is in /repo.
+CMPTHROW_ENABLED = False
+CMPTHROW = {
+  'quick': [X('d1-cmpthrow', 'base', 'objs=cmpthrow', 'depth=1', 'alpha=' + ALL, 'ppalpha=' + ALL, 'chain=1'),
+            X('d2-cmpthrow', 'base', 'objs=cmpthrow', 'depth=2', 'alpha=0124', 'ppalpha=01'),
+            X('deep-cmpthrow', 'base', 'mode=deep', 'objs=cmpthrow'),
+            X('d1-cmpthrow-asan', 'asan', 'objs=cmpthrow', 'depth=1', 'alpha=' + ALL, 'ppalpha=012', 'chain=1')],
+  'thorough': ([X('d1-cmpthrow', 'base', 'objs=cmpthrow', 'depth=1', 'alpha=' + ALL, 'ppalpha=' + ALL, 'chain=1', 'fresh=1'),
+                X('d1-cmpthrow-msg', 'base', 'objs=cmpthrow', 'msg=mix', 'depth=1', 'alpha=' + ALL, 'ppalpha=' + ALL, 'chain=1')]
+               + S('d2-cmpthrow', 'base', 4, 'objs=cmpthrow', 'depth=2', 'alpha=' + ALL, 'ppalpha=01')
+               + S('d3-cmpthrow', 'base', 4, 'objs=cmpthrow', 'depth=3', 'alpha=012', 'ppalpha=0')
+               + S('d1-cmpthrow-fork', 'base', 2, 'objs=cmpthrow', 'depth=1', 'alpha=' + ALL, 'ppalpha=012', 'main=0', 'fork=1')
+               + [X('deep-cmpthrow', 'base', 'mode=deep', 'objs=cmpthrow'),
+                  X('d1-cmpthrow-asan', 'asan', 'objs=cmpthrow', 'depth=1', 'alpha=' + ALL, 'ppalpha=' + ALL, 'chain=1'),
+                  X('deep-cmpthrow-asan', 'asan', 'mode=deep', 'objs=cmpthrow')]),
+}
+
 CHECK = {
   'id': 'C07',
   'level': 'model_checking',
@@ -35,6 +55,8 @@ CHECK = {
            'In the msg=1..4|mix instances every throw formats a message argument whose Show method itself uses the exception system (handles an inner '
            'exception of another kind / of the same object as the outer throw / enters a try that throws nothing / two nested trys): the program must '
            'behave exactly as with a plain message. '
+           'Message texts vary with the slot of the throw (plain, a literal %%, %s of a String "50% off", %$ of a String containing %d %s %): the text must never matter. '
+           'In the objs=cmptry instances the thrown values and the filter entries belong to a class whose Cmp function opens try blocks of its own (one, two nested, two in sequence; nothing thrown) while exception_catch scans the filter. '
            'Deep nesting (mode=deep): recursion with D try blocks open at once, D in {1,2,3,17,100,1000,MAX-2,MAX-1,MAX} with MAX = '
            'EXCEPTION_MAX_DEPTH taken from the library source (MAX+1 aborts by design and is not run), non-matching filters at every level '
            'except a target (outermost/middle/innermost/nobody; typed or catch-all), A or B thrown at the bottom, optionally re-thrown by the '
@@ -109,6 +131,17 @@ CHECK = {
          X('deep-msg', 'base', 'mode=deep', 'msg=mix', 'objs=string'),
          X('d1-msg-asan', 'asan', 'msg=mix', 'depth=1', 'alpha=' + ALL, 'ppalpha=012', 'chain=1'),
          X('d2-msg-asan', 'asan', 'msg=mix', 'objs=struct', 'depth=2', 'alpha=012', 'ppalpha=0')]
+      # message texts containing '%' (pct=mix is the default of every instance; these pin one variant each on propagation-heavy programs)
+      + [X('d2-pct%d' % k, 'base', 'pct=%d' % k, 'depth=2', 'alpha=0125', 'ppalpha=0') for k in (1, 2, 3)]
+      + [X('d2-pct-asan', 'asan', 'pct=3', 'depth=2', 'alpha=012', 'ppalpha=0')]
+      # value objects whose Cmp function opens try blocks of its own, thrown and listed in filters
+      + [X('d1-cmptry', 'base', 'objs=cmptry', 'depth=1', 'alpha=' + ALL, 'ppalpha=' + ALL, 'chain=1'),
+         X('d1-cmptry-msg', 'base', 'objs=cmptry', 'msg=mix', 'depth=1', 'alpha=' + ALL, 'ppalpha=012'),
+         X('d1-cmptry-fork', 'base', 'objs=cmptry', 'depth=1', 'alpha=0128', 'ppalpha=012', 'main=0', 'fork=1'),
+         X('d2-cmptry', 'base', 'objs=cmptry', 'depth=2', 'alpha=0124', 'ppalpha=01'),
+         X('deep-cmptry', 'base', 'mode=deep', 'objs=cmptry'),
+         X('d1-cmptry-asan', 'asan', 'objs=cmptry', 'depth=1', 'alpha=' + ALL, 'ppalpha=012', 'chain=1')]
+      + (CMPTHROW['quick'] if CMPTHROW_ENABLED else [])
       # deep dynamic nesting (recursion) up to EXCEPTION_MAX_DEPTH open try blocks, one forked child per case
       + [X('deep', 'base', 'mode=deep'),
          X('deep-val', 'base', 'mode=deep', 'objs=struct'),
@@ -170,6 +203,22 @@ CHECK = {
       + [X('d1-msg-asan', 'asan', 'msg=mix', 'depth=1', 'alpha=' + ALL, 'ppalpha=' + ALL, 'chain=1'),
          X('d2-msg-asan', 'asan', 'msg=mix', 'objs=struct', 'depth=2', 'alpha=0124', 'ppalpha=0'),
          X('deep-msg-asan', 'asan', 'mode=deep', 'msg=mix')]
+      # message texts containing '%'
+      + [i for k in (1, 2, 3) for i in S('d2-pct%d' % k, 'base', 2, 'pct=%d' % k, 'depth=2', 'alpha=' + ALL, 'ppalpha=0')]
+      + [i for k in (1, 2, 3) for i in S('d3-pct%d' % k, 'base', 2, 'pct=%d' % k, 'depth=3', 'alpha=012', 'ppalpha=0', 'dyns=lex')]
+      + [X('d2-pct-asan', 'asan', 'pct=3', 'depth=2', 'alpha=0124', 'ppalpha=0')]
+      # value objects whose Cmp function opens try blocks of its own, thrown and listed in filters
+      + [X('d1-cmptry', 'base', 'objs=cmptry', 'depth=1', 'alpha=' + ALL, 'ppalpha=' + ALL, 'chain=1', 'fresh=1'),
+         X('d1-cmptry-msg', 'base', 'objs=cmptry', 'msg=mix', 'depth=1', 'alpha=' + ALL, 'ppalpha=' + ALL, 'chain=1')]
+      + S('d1-cmptry-fork', 'base', 2, 'objs=cmptry', 'depth=1', 'alpha=' + ALL, 'ppalpha=012', 'main=0', 'fork=1')
+      + S('d2-cmptry', 'base', 4, 'objs=cmptry', 'depth=2', 'alpha=' + ALL, 'ppalpha=01')
+      + S('d3-cmptry', 'base', 4, 'objs=cmptry', 'depth=3', 'alpha=012', 'ppalpha=0')
+      + S('seq-cmptry', 'base', 2, 'objs=cmptry', 'kind=seq', 'alpha=' + ALL, 'ppalpha=01')
+      + [X('deep-cmptry', 'base', 'mode=deep', 'objs=cmptry'),
+         X('d1-cmptry-asan', 'asan', 'objs=cmptry', 'depth=1', 'alpha=' + ALL, 'ppalpha=' + ALL, 'chain=1'),
+         X('d2-cmptry-asan', 'asan', 'objs=cmptry', 'depth=2', 'alpha=0124', 'ppalpha=0'),
+         X('deep-cmptry-asan', 'asan', 'mode=deep', 'objs=cmptry')]
+      + (CMPTHROW['thorough'] if CMPTHROW_ENABLED else [])
       # deep dynamic nesting (recursion) up to EXCEPTION_MAX_DEPTH open try blocks, one forked child per case
       + [X('deep', 'base', 'mode=deep'),
          X('deep-val', 'base', 'mode=deep', 'objs=struct'),
